@@ -704,9 +704,9 @@ def run(ck):
         other = "K" if tu != "K" else "°C"
         tu0 = tu if route == "constructed" else other
         lab0 = [st[0][0], st[0][1], st[1][0], st[1][1], st[2][0], st[2][1], tu0]
-        # TODO(candidate defect, reported): DR / DA stay out of this generator — ModelIsotherm.__init__ hands the RAW stored temperature
-        # (`self._temperature`, not kelvin) to `model.__init_parameters__`, so a DR/DA model isotherm whose temperature is stored in
-        # degrees Celsius evaluates with minus_rt = -R*t[degC] (loading_at(0.1): 4.01 instead of 4.83 mmol/g for n_m=5, e=8000, N2 at -195.8 degC)
+        # DR / DA are defined on relative pressures below 1 only and stay out of this generator of arbitrary representations; that their RT term
+        # comes from the temperature in kelvin whatever unit it is stored in (finding S43, repaired in the repository: `ModelIsotherm.__init__`
+        # used to hand the raw stored number to `model.__init_parameters__`) is checked by `dr_da_celsius` below
         mname = rng.choice(["Langmuir", "Henry", "Henry", "Toth", "DSLangmuir", "Virial"])
         par = sample_params(mname, rng)
         m = make(pg, mname, par)
@@ -982,6 +982,41 @@ def run(ck):
                 if n_dis <= (40 if os.environ.get("PGV_C03_DEBUG") else 3):
                     ck.broken.append({"step": "correspondence Model/Access.lean", "what": {"request": line, "model": rep[:120], "implementation": [got[0], str(got[1])[:80]], **(sig or {})}})
     ck.cov["correspondence_disagreements"] = n_dis
+    # ------------------------------------------------------------------ DR / DA model isotherms stored in °C (finding S43)
+    # "values ... model-evaluated at given points ... in any supported unit": the same model isotherm stored at T kelvin and at T-273.15 °C is the
+    # same isotherm; a fit of the same data in either temperature unit returns the same parameters
+    def dr_da_celsius():
+        import numpy as np
+        from pygaps.modelling import get_isotherm_model
+        common = dict(material="pgv-synth", adsorbate="N2", pressure_mode="relative", loading_basis="molar", loading_unit="mmol", material_basis="mass", material_unit="g")
+        for i in range(ck.n(6, 30)):
+            name = rng.choice(["DR", "DA"])
+            par = {"n_m": rng.uniform(1, 10), "e": rng.uniform(3000, 12000)}
+            if name == "DA":
+                par["m"] = rng.uniform(1.2, 3.0)
+            tk = rng.uniform(70, 120)
+            ck.count(("dr-da-celsius", name, i), bucket="DR/DA stored in °C")
+            try:
+                isos = []
+                for t, u in ((tk, "K"), (tk - 273.15, "°C")):
+                    m = get_isotherm_model(name, parameters={k: np.float64(v) for k, v in par.items()})
+                    isos.append(pg.ModelIsotherm(model=m, temperature=t, temperature_unit=u, **common))
+                ps = np.array(sorted(rng.uniform(0.01, 0.95) for _ in range(5)))
+                a, b = np.asarray(isos[0].loading_at(ps), dtype=float), np.asarray(isos[1].loading_at(ps), dtype=float)
+                if not np.allclose(a, b, rtol=1e-9, atol=0):
+                    ck.fail_case({"clause": "model isotherm stored in °C evaluates differently from the same isotherm stored in K", "model": name, "path": "model instance"},
+                                 {"params": par, "T_K": tk, "pressure": ps.tolist(), "kelvin": a.tolist(), "celsius": b.tolist()})
+                    continue
+                fits = [pg.ModelIsotherm(pressure=ps, loading=a, model=name, temperature=t, temperature_unit=u, **common) for t, u in ((tk, "K"), (tk - 273.15, "°C"))]
+                fa, fb = np.asarray(fits[0].loading_at(ps), dtype=float), np.asarray(fits[1].loading_at(ps), dtype=float)
+                pa, pb = fits[0].model.params, fits[1].model.params
+                if not (np.allclose(fa, fb, rtol=1e-6, atol=0) and all(abs(float(pa[k]) - float(pb[k])) <= 1e-4 * abs(float(pa[k])) for k in pa)):
+                    ck.fail_case({"clause": "model isotherm stored in °C evaluates differently from the same isotherm stored in K", "model": name, "path": "fit"},
+                                 {"params": par, "T_K": tk, "pressure": ps.tolist(), "fit_kelvin": {k: float(v) for k, v in pa.items()}, "fit_celsius": {k: float(v) for k, v in pb.items()}})
+            except pg.utilities.exceptions.CalculationError:
+                ck.count(("dr-da-celsius-refused", name, i), nontrivial=False, bucket="DR/DA stored in °C: fit refused")
+    dr_da_celsius()
+
     ck.cov["rule"] = ("seeded (stored representation x requested representation) pairs over the 10 x 27 x 19 space, stub and N2 adsorbates, two-branch data with extra columns: "
                       "pressure()/loading() per branch, limits (None, 0, equal-to-data), loading_at/pressure_at at knots / interior / outside / with fill, foreign-unit queries, "
                       "ModelIsotherm.loading_at/pressure_at on 4 closed-form models, malformed argument combinations; branch guessing on pressure sequences x 6 row labellings x 4 dtypes; "
